@@ -276,7 +276,141 @@ def tie_apply_mct(rng, n):
     return len(exp), [(c, a[:200], b[:200]) for (c, a), b in zip(exp, out) if a != b]
 
 
+# ----------------------------------------------------------------------------- C17
+def _slist(xs):
+    xs = list(xs)
+    return ",".join(xs) if xs else "-"
+
+
+def tie_create_tile_fix_len(rng, n):
+    from csep.core import regions
+    drv, exp = Driver(), []
+    for _ in range(max(20, n // 10)):
+        q = "".join(rng.choice("0123") for _ in range(rng.randint(1, 3)))
+        zoom = rng.randint(0, len(q) + 3)
+        qk0 = [rng.choice(["9", "01", "333"]) for _ in range(rng.randint(0, 2))]
+        qk = list(qk0)
+        regions._create_tile_fix_len(q, zoom, qk)
+        exp.append((dict(quadk=q, zoom=zoom, qk=qk0), "ok " + _slist(qk)))
+        drv.ask(f"srcsm_create_tile_fix_len {max(zoom - len(q), 0) + 1} {q} {zoom} {_slist(qk0)}")
+    out = drv.run()
+    return len(exp), [(c, a[:200], b[:200]) for (c, a), b in zip(exp, out) if a != b]
+
+
+class _record_bounds:
+    """records mercantile.bounds per quadkey while the real _create_tile runs"""
+
+    def __enter__(self):
+        import mercantile
+        self.saved = (mercantile.quadkey_to_tile, mercantile.bounds)
+        self.table, self.keys = {}, {}
+
+        def q2t(qk):
+            t = self.saved[0](qk)
+            self.keys[tuple(t)] = qk
+            return t
+
+        def bounds(*tile):
+            b = self.saved[1](*tile)
+            t = tile[0] if len(tile) == 1 else tile
+            self.table[self.keys[tuple(t)]] = (b.west, b.south, b.east, b.north)
+            return b
+        mercantile.quadkey_to_tile, mercantile.bounds = q2t, bounds
+        return self
+
+    def __exit__(self, *a):
+        import mercantile
+        mercantile.quadkey_to_tile, mercantile.bounds = self.saved
+
+
+def tie_create_tile(rng, n):
+    import mercantile
+    import numpy
+    from csep.core import regions
+    from .core import frac
+    drv, exp = Driver(), []
+    for _ in range(max(20, n // 10)):
+        q = "".join(rng.choice("0123") for _ in range(rng.randint(1, 2)))
+        zoom = rng.randint(1, len(q) + 3)
+        thr = rng.choice([0, 1, 2, 3, 5])
+        b0 = mercantile.bounds(mercantile.quadkey_to_tile(q))
+        lon, lat = [], []
+        for _ in range(rng.choice([0, 1, 3, 8, 20])):
+            k = rng.random()
+            if k < 0.5:       # inside the starting tile
+                lon.append(rng.uniform(b0.west, b0.east)), lat.append(rng.uniform(b0.south, b0.north))
+            elif k < 0.8:     # on / next to an edge of a descendant tile
+                d = q + "".join(rng.choice("0123") for _ in range(rng.randint(0, 2)))
+                b = mercantile.bounds(mercantile.quadkey_to_tile(d))
+                x, y = rng.choice([b.west, b.east]), rng.choice([b.south, b.north])
+                lon.append(rng.choice([x, next_up(x), next_down(x)])), lat.append(rng.choice([y, next_up(y), next_down(y)]))
+            else:
+                lon.append(rng.uniform(-180, 180)), lat.append(rng.uniform(-85, 85))
+        qk0 = [rng.choice(["9", "01"]) for _ in range(rng.randint(0, 1))]
+        num0 = [rng.randint(0, 9) for _ in qk0]
+        qk, num = list(qk0), list(num0)
+        with _record_bounds() as rec:
+            regions._create_tile(q, thr, zoom, numpy.array(lon, dtype=numpy.float64), numpy.array(lat, dtype=numpy.float64),
+                                 qk, num)
+        tbl = ";".join(f"{kq}:{frac(w)}:{frac(s_)}:{frac(e)}:{frac(n_)}" for kq, (w, s_, e, n_) in rec.table.items())
+        exp.append((dict(quadk=q, thr=thr, zoom=zoom, lon=lon, lat=lat), f"ok {_slist(qk)}|{ilist(num)}"))
+        drv.ask(f"srcsm_create_tile {max(zoom - len(q), 0) + 1} {q} {thr} {zoom} {flist(lon)} {flist(lat)} {_slist(qk0)} "
+                f"{ilist(num0)} {tbl or '-'}")
+    out = drv.run()
+    return len(exp), [(c, a[:200], b[:200]) for (c, a), b in zip(exp, out) if a != b]
+
+
+# ----------------------------------------------------------------------------- C01
+def tie_build_bitmask_loop(rng, n):
+    """the real `_build_bitmask_vec` of real regions (random subsets of a lattice, with / without `mask`) against
+    `SrcSM.build_bitmask_loop`; the live-in values `idx`, `idy` are what `bin1d_vec` returns inside the real run (recorded),
+    in a third of the cases replaced by arbitrary indices in [-n, n) (wrap-around of negative indices, repeated positions)"""
+    import numpy
+    from csep.core import regions
+    drv, exp = Driver(), []
+    for _ in range(max(20, n // 10)):
+        nx0, ny0 = rng.randint(1, 5), rng.randint(1, 4)
+        dh = rng.choice([0.1, 0.5, 1.0])
+        x0, y0 = rng.choice([-120.0, 0.0, 10.5]), rng.choice([30.0, -5.0, 0.0])
+        cells = [(x0 + i * dh, y0 + j * dh) for j in range(ny0) for i in range(nx0)]
+        cells = [c for c in cells if rng.random() < 0.8] or cells[:1]
+        if rng.random() < 0.3:
+            rng.shuffle(cells)
+        mask = None if rng.random() < 0.5 else [rng.choice([1, 1, 0]) for _ in cells]
+        synthetic = rng.random() < 0.35
+        rec = []
+        real_bin = regions.bin1d_vec
+
+        def spy(p, bins, *a, **k):
+            r = real_bin(p, bins, *a, **k)
+            if synthetic:
+                m = len(bins)
+                r = numpy.array([rng.randrange(-m, m) for _ in r], dtype=numpy.int64)
+            rec.append([int(v) for v in r])
+            return r
+        regions.bin1d_vec = spy
+        try:
+            polys = [regions.Polygon(regions.compute_vertex(c, dh)) for c in cells]
+            reg = regions.CartesianGrid2D(polys, dh, mask=mask)      # the constructor runs _build_bitmask_vec once
+            rec.clear()
+            a, xs, ys = reg._build_bitmask_vec()
+        finally:
+            regions.bin1d_vec = real_bin
+        idx, idy = rec[0], rec[1]
+        ny, nx = a.shape[0], a.shape[1]
+        got = "ok " + (",".join(f"{int(a[r, c, 0])}:{'nan' if a[r, c, 1] != a[r, c, 1] else int(a[r, c, 1])}"
+                                for r in range(ny) for c in range(nx)) or "-")
+        exp.append((dict(cells=len(cells), mask=mask, idx=idx, idy=idy, synthetic=synthetic), got))
+        drv.ask(f"srcsm_build_bitmask_loop {ny} {nx} {len(cells)} {ilist(idx)} {ilist(idy)} "
+                f"{'none' if mask is None else ilist(mask)}")
+    out = drv.run()
+    return len(exp), [(c, a_[:200], b[:200]) for (c, a_), b in zip(exp, out) if a_ != b]
+
+
 TIES = {
+    "build_bitmask_loop": tie_build_bitmask_loop,
+    "create_tile": tie_create_tile,
+    "create_tile_fix_len": tie_create_tile_fix_len,
     "apply_mct": tie_apply_mct,
     "load_ascii_catalogs": tie_load_ascii_catalogs,
     "simulate_catalog": _tie_injected("csep.core.poisson_evaluations", "srcsm_simulate_catalog"),
